@@ -141,6 +141,7 @@ func (c *Conn) doInvoke(stream *drpcstream.Stream, enc drpc.Encoding, rpc string
 		if err := stream.RawWrite(drpcwire.KindInvokeMetadata, metadata); err != nil {
 			return err
 		}
+		drpcdebug.Point("conn.meta.written")
 	}
 	if err := stream.RawWrite(drpcwire.KindInvoke, []byte(rpc)); err != nil {
 		return err
@@ -186,6 +187,7 @@ func (c *Conn) doNewStream(stream *drpcstream.Stream, rpc string, metadata []byt
 		if err := stream.RawWrite(drpcwire.KindInvokeMetadata, metadata); err != nil {
 			return err
 		}
+		drpcdebug.Point("conn.meta.written")
 	}
 	if err := stream.RawWrite(drpcwire.KindInvoke, []byte(rpc)); err != nil {
 		return err
